@@ -69,6 +69,10 @@ func (s *PSlice) Add(addrs ...boson.Address) {
 		}
 
 		po := addrPo[i]
+		// the same address may be repeated within this call
+		if e, _ := s.index(addr, po); e {
+			continue
+		}
 		s.peers[po] = append(s.peers[po], addr)
 	}
 }
